@@ -1,27 +1,53 @@
+//! seqmc: explicit-state exploration of operation histories on the real crate.
+//! Usage: seqmc --prop C01 --tier quick|thorough --out FILE --replay-dir DIR [--threads N] [--wall SECS]
+//!        seqmc --replay FILE
 use lsverif::explore::*;
-use lsverif::pool::*;
-use lsverif::profiles;
+use lsverif::plans;
+use lsverif::report::{Report, write_replay};
 use std::time::Instant;
+
+fn arg(args: &[String], name: &str) -> Option<String> {
+    args.iter().position(|a| a == name).and_then(|i| args.get(i + 1).cloned())
+}
 
 fn main() {
     lsverif::init();
     let args: Vec<String> = std::env::args().collect();
-    let depth: usize = args.get(1).and_then(|s| s.parse().ok()).unwrap_or(3);
-    let prof = match args.get(2).map(|s| s.as_str()) {
-        Some("share") => profiles::share(),
-        Some("inline") => profiles::inline_only(),
-        Some("static") => profiles::statics(),
-        Some("index") => profiles::index(),
-        Some("wide-try") => profiles::wide(Form::Try),
-        _ => profiles::wide(Form::Plain),
-    };
-    let findings = Findings::default();
-    let budget = Budget { start: Instant::now(), wall_secs: 600.0, max_states: u64::MAX };
-    let ex = Explorer { prof: &prof, props: Props::all(), threads: 16, findings: &findings, budget: &budget, close_rotations: true };
-    let roots = if args.get(3).map(|s| s.as_str()) == Some("seeds") { profiles::seeds(&prof) } else { vec![vec![]] };
-    let r = ex.run(roots, depth, true);
-    println!("states {} transitions {} probes {} outcomes {}", r.states, r.transitions, r.state_probes, r.outcomes.len());
-    for (k, f) in findings.map.lock().unwrap().iter() {
-        println!("FOUND {} x{} :: {} :: {:?}", k, f.count, f.detail, f.history);
+    if let Some(path) = arg(&args, "--replay") {
+        std::process::exit(plans::replay_file(&path));
     }
+    let prop = arg(&args, "--prop").expect("--prop");
+    let tier = arg(&args, "--tier").unwrap_or_else(|| "quick".into());
+    let out = arg(&args, "--out").unwrap_or_else(|| format!("/verif/evidence/{prop}.json"));
+    let replay_dir = arg(&args, "--replay-dir").unwrap_or_else(|| "/verif/replays".into());
+    let threads: usize = arg(&args, "--threads").and_then(|s| s.parse().ok()).unwrap_or_else(|| std::thread::available_parallelism().map(|n| n.get()).unwrap_or(4));
+    let seed: u64 = std::env::var("VERIF_SEED").ok().and_then(|s| s.parse().ok()).unwrap_or(0);
+    let wall: f64 = arg(&args, "--wall").and_then(|s| s.parse().ok()).unwrap_or(if tier == "quick" { 120.0 } else { 3000.0 });
+    let t0 = Instant::now();
+    let budget = Budget { start: t0, wall_secs: wall, max_states: u64::MAX };
+    let findings = Findings::default();
+    let mut report = Report::new(&prop, &tier, seed, plans::level_of(&prop));
+    plans::run_property(&prop, &tier, threads, &budget, &findings, &mut report);
+    let found: Vec<Found> = findings.map.lock().unwrap().values().filter(|f| f.prop == prop).cloned().collect();
+    let mut with_paths = Vec::new();
+    for f in found.iter().take(40) {
+        let path = write_replay(&replay_dir, "seqmc", f, "");
+        with_paths.push((f.clone(), path));
+    }
+    let ev = report.to_json(t0.elapsed().as_secs_f64(), &with_paths);
+    if let Some(dir) = std::path::Path::new(&out).parent() {
+        let _ = std::fs::create_dir_all(dir);
+    }
+    std::fs::write(&out, serde_json::to_string_pretty(&ev).unwrap()).expect("write evidence");
+    eprintln!("[{prop}/{tier}] states {} transitions {} probe-cases {} findings {} wall {:.1}s exhaustive {}", report.states, report.transitions, report.evaluations, with_paths.len(), t0.elapsed().as_secs_f64(), report.exhaustive);
+    for (f, path) in &with_paths {
+        println!("FINDING property={} signature={} replay={} :: {}", f.prop, f.sig, path, f.detail);
+    }
+    if !report.machinery_errors.is_empty() {
+        for e in &report.machinery_errors {
+            eprintln!("MACHINERY: {e}");
+        }
+        std::process::exit(2);
+    }
+    std::process::exit(if with_paths.is_empty() { 0 } else { 1 });
 }
